@@ -26,6 +26,8 @@ type scoreKit struct {
 	round  map[string]*types.Func // "roundUp", "round1", "round2"
 	cache  map[string][]*ir.Leaf
 	errs   []string
+
+	scoreFns []*types.Func
 }
 
 func (e *Env) newScoreKit(v *spec.Version, rule string) *scoreKit {
@@ -608,7 +610,7 @@ func (k *scoreKit) validChain(rule string) {
 			continue
 		}
 		sf := k.e.P.SSAFunc(m)
-		leaves, err := ir.Leaves(sf, ir.LeafOptions{})
+		leaves, err := ir.Leaves(sf, ir.LeafOptions{Inline: k.e.inlineHelpers()})
 		if err != nil {
 			c.Undecided(rule, fname(m), k.e.P.Pos(m.Pos()), err.Error())
 			continue
